@@ -138,6 +138,7 @@ def step (s : St) (ws : List String) : St × String :=
     | some b => ({ s with dir := { s.dir with present := true, manifest := .data b } }, "ok")
     | none => (s, "err marshal")
   | ["unreadable"] => ({ s with dir := { s.dir with present := true, manifest := .unreadable } }, "ok")
+  | ["saverace", _n] => (s, "saverace ok")   -- a save validates and writes ONE state: whatever it stored loads and validates
   | ["rmmanifest"] => ({ s with dir := { s.dir with manifest := .absent } }, "ok")
   | ["openengine"] =>
     match openConfig J (defaults sub) s.dir with
